@@ -30,6 +30,7 @@ EDGE_KINDS = {
     '2a': [(1, 2.0)],
     'a-b': [(1, 1.0), (2, -1.0)],
     'a~': [(1, 1.0 + 2.0 ** -27)],     # differs from 'a' by 7.5e-9: equal only under a tolerant comparison
+    'ia': [(1, 1j)],                   # complex coefficient: merges with 'a' into (1+1j) a, with '-ia' it would cancel
 }
 # scrambled, non-contiguous ids
 NODE_IDS = [7, 3, 12, 5, 9, 20, 1, 15]
@@ -77,7 +78,7 @@ def _edge_layer_choices(w0, w1, kinds, allow_parallel):
 
 def initial_descs(tier):
     kinds = ['a', 'b', '2a', 'a-b']
-    kinds_t = kinds + ['a~']
+    kinds_t = kinds + ['a~', 'ia']
     out = []
     # L = 1
     for el in _edge_layer_choices(1, 1, kinds_t, True):
